@@ -7,6 +7,7 @@ persisted histories and the in-memory histories; block tables; latest; max; bloc
 -/
 import Brc20.Model.Node
 import Brc20.Model.Sim
+import Brc20.Model.Forks
 import Brc20.Model.Logs
 
 namespace Brc20.DriverE
@@ -145,6 +146,14 @@ def step (n : Node) (line : String) : Node × String :=
   | "reorg" => fin (n.reorg (num "n"))
   | "read" => fin (readStep n (parts.drop 1) evs (num "ncalls"))
   | "logsq" => (n, logsq g)
+  | "pbound" =>
+    -- Prague boundary scenario (C19): what the probe read from the current-txid helper; activation heights pinned to
+    -- Gen by `C19.fork_heights_pinned`; the parking block (`park=`) is deliberately not consulted
+    if g "kind" == "collide" then
+      (n, "seen=" ++ Forks.txidSeenColliding 923369 275000 929000 0 (Forks.netOf (g "net")) (num "park") (num "exec")
+        (g "txid") (g "other") zeroHash)
+    else
+      (n, "seen=" ++ Forks.txidSeen 923369 275000 (Forks.netOf (g "net")) (num "exec") (g "txid") zeroHash)
   | _ => (n, "bad-op")
 
 end Brc20.DriverE
